@@ -1,12 +1,15 @@
 """C05 - ORDER BY / LIMIT / OFFSET: limit sentinel arithmetic and single application of the offset."""
 from rules import limits as LM
 from rules import misc as M
+from rules import tables as T
 
 
 def run(ctx):
     LM.flw1_limit_arithmetic(ctx)
     M.ord2_offset_applied_once(ctx)
     M.ord13_sort_structure(ctx)
+    M.ord13_top_n_limit_zero(ctx)
+    T.tbl13_comparators(ctx)
     return ctx.finish(
         'MIR dataflow: interprocedural taint of values read from LimitClause fields (the limit may '
         'be the sentinel u64::MAX); no unchecked + / * on such a value and no unchecked subtraction '
